@@ -1,5 +1,6 @@
 #!/usr/bin/env bash
 # seedrun.sh <seed-out-dir> <seed-name> <property-id> <demo-crate> [extra check ids...]
+# Scratch worktree: $WT (default /tmp/cw), created with  git -C /repo worktree add --detach /tmp/cw HEAD  and removed afterwards.
 # Integrator-side confirmation of a seeded change, in the scratch worktree /tmp/cw:
 #   detection (quick tier of the property's check, plus extra ids), demo with the change (must fail),
 #   unedited suite with the change (must pass), demo without the change (must pass).
